@@ -78,6 +78,22 @@ class Translator:
             return self.const(e.value)
         if isinstance(e, ast.Name):
             if e.id not in self.env:
+                # a module-level numeric constant: bound once at module level to a numeric expression, never rebound by
+                # any function of the module (`global`), so it is part of the formula, not state
+                mod = self.f.module.tree
+                defs = [s_ for s_ in mod.body if isinstance(s_, (ast.Assign, ast.AnnAssign)) and getattr(s_, "value", None) is not None
+                        and any(isinstance(t_, ast.Name) and t_.id == e.id for t_ in (s_.targets if isinstance(s_, ast.Assign) else [s_.target]))]
+                rebound = any(isinstance(g_, (ast.Global, ast.Nonlocal)) and e.id in g_.names for g_ in ast.walk(mod))
+                if len(defs) == 1 and not rebound and all(isinstance(x_, (ast.Constant, ast.BinOp, ast.UnaryOp, ast.operator, ast.unaryop,
+                                                                         ast.Attribute, ast.Name, ast.Load, ast.Call))
+                                                          for x_ in ast.walk(defs[0].value)):
+                    saved = self.env
+                    self.env = {}
+                    try:
+                        v_ = self.ev(defs[0].value)
+                    finally:
+                        self.env = saved
+                    return v_
                 self.err(e, f"unknown name {e.id}")
             return self.env[e.id]
         if isinstance(e, ast.Attribute):
